@@ -1195,6 +1195,106 @@ pub fn scenario(rng: &mut Rng, id: usize) -> Option<Start> {
     }
 }
 
+/// Not a valid chess position (more than sixteen men), but one the library accepts: the side to move owns
+/// 12-24 queens and rooks spread over an otherwise empty board and has 220-400 legal moves.  "Arbitrary
+/// positions" of the text-facing properties; buffers sized for the 218 moves of the record position end here.
+pub fn many_moves_position(rng: &mut Rng) -> RPos {
+    loop {
+        let mut p = RPos::empty();
+        let bk = *rng.pick(&[0u8, 7, 56, 63]);
+        p.sq[bk as usize] = pc(K, BLACK);
+        let n = rng.range(12, 24);
+        for i in 0..n + 1 {
+            for _ in 0..20 {
+                let s = rng.below(64) as u8;
+                let (f, r, kf, kr) = ((s & 7) as i8, (s >> 3) as i8, (bk & 7) as i8, (bk >> 3) as i8);
+                if p.sq[s as usize] != 0 || ((f - kf).abs() <= 1 && (r - kr).abs() <= 1) {
+                    continue;
+                }
+                p.sq[s as usize] = pc(if i == 0 { K } else { *rng.pick(&[Q, Q, Q, R, B]) }, WHITE);
+                break;
+            }
+        }
+        p.stm = WHITE;
+        for _ in 0..64 {
+            let att = p.attackers(bk, WHITE);
+            if att == 0 {
+                break;
+            }
+            p.sq[att.trailing_zeros() as usize] = 0;
+        }
+        if p.attackers(bk, WHITE) != 0 || p.king_sq(WHITE).is_none() {
+            continue;
+        }
+        if rng.chance(1, 2) {
+            p = p.mirror_v();
+        }
+        return p;
+    }
+}
+
+/// A valid position whose FEN is as long as FEN gets: men on one colour of a checkerboard (no two
+/// adjacent empty squares merge into one digit), kings and rooks at home with all four rights, and an
+/// e.p. square where one can be set up.  Rendering buffers sized for "typical" positions end here.
+pub fn long_fen_position(rng: &mut Rng) -> Option<RPos> {
+    for _ in 0..60 {
+        let mut p = RPos::empty();
+        p.sq[4] = pc(K, WHITE);
+        p.sq[60] = pc(K, BLACK);
+        for (s, c) in [(0u8, WHITE), (7, WHITE), (56, BLACK), (63, BLACK)].iter() {
+            if rng.chance(9, 10) {
+                p.sq[*s as usize] = pc(R, *c);
+            }
+        }
+        let par = rng.below(2) as u8;
+        let fill = rng.range(70, 98) as u64;
+        for s in 0..64u8 {
+            let (f, r) = ((s & 7), (s >> 3));
+            if p.sq[s as usize] != 0 || (f + r) % 2 != par || !rng.chance(fill, 100) {
+                continue;
+            }
+            // never next to the castling paths' own squares being attacked matters not: only validity does
+            let c = if rng.chance(4, 5) { if r < 4 { WHITE } else { BLACK } } else { rng.below(2) as u8 };
+            if p.men(c) >= 16 {
+                continue;
+            }
+            let mut kd = *rng.pick(&[P, P, P, N, B, Q, R, N, B]);
+            if kd == P && (r == 0 || r == 7 || p.count(pc(P, c)) >= 8) {
+                kd = N;
+            }
+            p.sq[s as usize] = pc(kd, c);
+        }
+        p.castle = if rng.chance(3, 4) { 15 } else { rng.below(16) as u8 };
+        p.stm = rng.below(2) as u8;
+        fix_rights(&mut p);
+        // an e.p. square, set up directly: a pawn of the side that just moved on its fourth rank, the two squares behind it empty
+        if rng.chance(3, 4) {
+            let them = p.stm ^ 1;
+            let (r4, r3, r2) = if them == WHITE { (3i8, 2i8, 1i8) } else { (4, 5, 6) };
+            let mut files: Vec<i8> = (0..8).collect();
+            rng.shuffle(&mut files);
+            for f in files {
+                if p.sq[sqm(f, r3) as usize] == 0 && p.sq[sqm(f, r2) as usize] == 0 && (p.sq[sqm(f, r4) as usize] == 0 || p.sq[sqm(f, r4) as usize] == pc(P, them)) && p.count(pc(P, them)) < 8 {
+                    p.sq[sqm(f, r4) as usize] = pc(P, them);
+                    p.ep = Some(sqm(f, r3));
+                    break;
+                }
+            }
+        }
+        if p.men(WHITE) > 16 || p.men(BLACK) > 16 || p.count(pc(P, WHITE)) > 8 || p.count(pc(P, BLACK)) > 8 {
+            continue;
+        }
+        if p.in_check(p.stm ^ 1) {
+            p.stm ^= 1;
+            p.ep = None;
+        }
+        if p.valid() {
+            return Some(p);
+        }
+    }
+    None
+}
+
 /// Many enemy sliders lined up with one king (promoted queens, rooks and bishops, several per ray, most
 /// of them behind blockers): pin and check scans that assume "a king is on eight lines, so at most
 /// eight candidates" or "at most two men per ray matter" meet up to fifteen candidates here.
@@ -1277,7 +1377,7 @@ fn many_lined_up_sliders(rng: &mut Rng) -> Option<Start> {
 /// rank (neither pawn is "pinned" in the ordinary sense), or because the capturer is pinned.
 fn illegal_ep_ends_game(rng: &mut Rng) -> Option<Start> {
     let tag = SCEN_NAMES[21];
-    for _ in 0..400 {
+    for _ in 0..(if cfg!(miri) { 4 } else { 400 }) {
         let mut p = RPos::empty();
         let kf = rng.range(0, 2) as i8;
         let a = kf + 1 + rng.below(2) as i8;
@@ -1357,7 +1457,7 @@ fn illegal_ep_ends_game(rng: &mut Rng) -> Option<Start> {
 /// leave it to the monitors' fan-out / look-ahead.
 fn special_move_ends_game(rng: &mut Rng) -> Option<Start> {
     let tag = SCEN_NAMES[20];
-    for _ in 0..60 {
+    for _ in 0..(if cfg!(miri) { 4 } else { 60 }) {
         let mut p = RPos::empty();
         let mut prelude: Vec<RMove> = vec![];
         let fin: RMove;
@@ -1482,7 +1582,7 @@ fn special_move_ends_game(rng: &mut Rng) -> Option<Start> {
 /// several men (hemmed-in pieces, blocked pawns).  `want_pawn_file`: additionally White owns a pawn on
 /// its fifth rank... (used by the only-move-is-e.p. recipe, see there).
 fn hemmed_in(rng: &mut Rng, extra_pawn: bool) -> Option<(RPos, Option<i8>)> {
-    for _ in 0..80 {
+    for _ in 0..(if cfg!(miri) { 3 } else { 80 }) {
         let mut p = RPos::empty();
         // variant: the extra pawn (on e5) is pinned along the diagonal a1-h8 by a bishop/queen beyond f6,
         // so that its only move will be the e.p. capture along the pin line
@@ -1652,7 +1752,8 @@ pub fn synth_ep_invented(rng: &mut Rng) -> Option<Start> {
 
 /// Draw a scenario instance (retrying), round-robin over recipes by `idx`.
 pub fn scenario_retry(rng: &mut Rng, idx: usize) -> Option<Start> {
-    for _ in 0..200 {
+    // (the search-based recipes cost seconds per draw in the interpreter: few draws there)
+    for _ in 0..(if cfg!(miri) { 3 } else { 200 }) {
         if let Some(s) = scenario(rng, idx) {
             return Some(s);
         }
